@@ -59,11 +59,27 @@ def generate(streams: core.Streams, tier: str) -> dict:
         if any("|re|i" in k for det in d["detection"].values() if isinstance(det, dict) for k in det):
             kinds.add("regex_flags")
     forced: list[str] = []
+    if gen.chance(w, 0.2):
+        # collection action: a global document contributes several detections / fields to later rules
+        glob = {"action": "global", "detection": {"sel_g1": {"g.a": "1", "g.b": "2", "g.c": "3"},
+                                                  "sel_g2": {"g.d": "4"}, "sel_g3": {"g.e": "5"}}}
+        docs.insert(0, glob)
+        for d in docs[1:]:
+            if "detection" in d and gen.chance(w, 0.7):
+                first = next(k for k in d["detection"] if k != "condition")
+                d["detection"]["condition"] = f"{first} or 1 of sel_g*"
+        kinds.add("global_action_document")
+    if gen.chance(f, 0.06):
+        victim = gen.pick(w, [d for d in docs if "detection" in d and "title" in d])
+        first = next(k for k in victim["detection"] if k != "condition")
+        victim["detection"]["condition"] = f"{first} not {first}"  # syntax error reported at conversion
+        kinds.add("condition_syntax_error")
     # filters, some with detection names starting with digit / underscore
     for i in range(w.choice([0, 0, 1, 1, 2])):
         names = w.sample(["selection", "flt", "sel_2", "1st", "_under", "x-y"], 2)
-        target = "any" if gen.chance(w, 0.6) else [docs[w.randrange(n)]["name"]]
-        ls = copy.deepcopy(gen.pick(w, docs)["logsource"])
+        rules_only = [d for d in docs if "detection" in d and "title" in d]
+        target = "any" if gen.chance(w, 0.6) else [gen.pick(w, rules_only)["name"]]
+        ls = copy.deepcopy(gen.pick(w, rules_only)["logsource"])
         docs.append(gen.gen_filter(w, f"F{i}", target, ls, names))
         kinds.add("filter")
         if gen.chance(f, 0.08):  # a broken filter: its condition names a detection it does not define
@@ -71,7 +87,7 @@ def generate(streams: core.Streams, tier: str) -> dict:
             kinds.add("filter_condition_names_undefined_detection")
     # correlation rules, some malformed
     for i in range(w.choice([0, 0, 1, 1, 2])):
-        refs = [gen.pick(w, [d for d in docs if "detection" in d])["name"] for _ in range(w.randint(1, 2))]
+        refs = [gen.pick(w, [d for d in docs if "detection" in d and "title" in d])["name"] for _ in range(w.randint(1, 2))]
         c = gen.gen_correlation(w, f"C{i}", sorted(set(refs)), rid=gen.UUIDS[7 + i], name=f"corr_{i}",
                                 generate=gen.chance(w, 0.5))
         if gen.chance(w, 0.4):
@@ -97,7 +113,7 @@ def generate(streams: core.Streams, tier: str) -> dict:
                 {"type": "field_name_mapping", "mapping": {"User": ["u.one", "u.two", "u.three"], "Image": ["i.a", "i.b"]}})
             kinds.add("one_to_many_mapping")
             if gen.chance(w, 0.6):  # the mapped fields also occur as *referenced* fields
-                victim = gen.pick(w, [d for d in docs if "detection" in d])
+                victim = gen.pick(w, [d for d in docs if "detection" in d and "title" in d])
                 victim["detection"]["refs"] = {"EventID|fieldref": "User", "a.b|fieldref": "Image"}
                 first = next(k for k in victim["detection"] if k not in ("condition", "refs"))
                 victim["detection"]["condition"] = f"{first} or refs"
@@ -119,7 +135,7 @@ def generate(streams: core.Streams, tier: str) -> dict:
     collide = gen.chance(f, 0.15)
     if collide:
         draw = "qqqqqqqqqq"
-        victim = gen.pick(w, [d for d in docs if "detection" in d])
+        victim = gen.pick(w, [d for d in docs if "detection" in d and "title" in d])
         if "filter" in kinds:
             fl = next(d for d in docs if "filter" in d)
             fname = next(k for k in fl["filter"] if k not in ("rules", "condition"))
